@@ -53,6 +53,7 @@ struct State {
     uint64_t insns = 0;
     uint64_t timeCtr = 0;
     bool assertedSomething = false;
+    std::vector<std::pair<std::string, z3::expr>> known;   // known-finding predicates declared by the harness on this path
 };
 typedef std::unique_ptr<State> StateP;
 
@@ -79,6 +80,7 @@ struct Options {
     uint64_t maxSymObj = 1 << 16;
     std::string kissat = "";
     int dedupFailures = 1;
+    std::set<std::string> knownIds;   // ids with status 'known' in known_findings.json
 };
 
 class Executor {
@@ -95,7 +97,7 @@ public:
     std::map<std::string, uint64_t> reachCount;
     std::set<std::string> declaredReach;
     std::map<std::string, uint64_t> nativeUse;
-    std::vector<std::string> knownFindingsHit;
+    std::map<std::string, Failure> knownHits;
     uint64_t pathsDone = 0, pathsKilledAssume = 0, pathsError = 0, pathsBudget = 0, forks = 0, totalInsns = 0;
     uint64_t qTotal = 0, qSat = 0, qUnsat = 0, qUnknown = 0; double solverS = 0;
     uint64_t assertsChecked = 0, assertsSymbolic = 0, pathsWithSymAssert = 0;
@@ -146,6 +148,8 @@ public:
     void branchOn(State &s, const z3::expr &c, bool &canT, bool &canF);
     // reporting
     void fail(State &s, const std::string &kind, const std::string &msg, const Instruction *at, const z3::expr *extra);
+    // returns true if the bad condition is feasible at all (new or known)
+    bool report(State &s, const std::string &kind, const std::string &msg, const Instruction *at, const z3::expr &bad, bool hard);
     std::string locOf(const Instruction *at);
     void fillModel(State &s, Failure &f, z3::model *m);
     void endPath(State &s, const char *how);
